@@ -4,7 +4,8 @@
 (* a trace is the configuration (agents, which are imported, the Epoch rows of   *)
 (* the importer database as step indices, its ephemeris rows as <<agent, epoch   *)
 (* index>> incl. unrelated agents and gaps, its observation rows, the engines    *)
-(* with their sensors and target lists).                                         *)
+(* with their sensors and target lists, which observation rows are stored twice, *)
+(* whether the file has the full schema or only the tables the importer reads).  *)
 (* A trace is accepted iff TLC can walk it to its end; Why names, for the record *)
 (* at which a rejected trace is stuck, the formula of Importer.tla it breaks.    *)
 EXTENDS Importer, Json, IOUtils
@@ -22,6 +23,7 @@ Triples(seq) == {Triple(seq[i]) : i \in DOMAIN seq}
 EngOf(r, e) == r.engines[CHOOSE i \in DOMAIN r.engines : r.engines[i][1] = e]
 CfgOf(r) == [agents |-> ToSet(r.agents), imported |-> ToSet(r.imported), targets |-> ToSet(r.targets),
              epochs |-> ToSet(r.epochs), rows |-> Pairs(r.rows), obs |-> Triples(r.obs), nsteps |-> r.nsteps,
+             dup |-> Triples(r.dup), schema |-> r.schema,
              born |-> [a \in ToSet(r.agents) |-> LET i == CHOOSE j \in DOMAIN r.born : r.born[j][1] = a IN r.born[i][2]],
              engines |-> {r.engines[i][1] : i \in DOMAIN r.engines},
              sensorOf |-> [s \in ToSet(r.agents) \ ToSet(r.targets) |->
@@ -31,6 +33,8 @@ IsEvent(e) == l <= Len(Tr) /\ Rec.ev = e /\ l' = l + 1 /\ UNCHANGED tid
 
 TraceInit == tid \in DOMAIN Traces /\ InitWith(CfgOf(Traces[tid][1])) /\ l = 2
 
+\* the scenario has been built (every ImporterDatabase object exists): the file and its schema are what they were
+TOpen == IsEvent("Open") /\ OpenImporter /\ Rec.unchanged /\ Rec.schema_unchanged
 TBeginStep == IsEvent("BeginStep") /\ BeginStep /\ k' = Rec.k
 \* held logged as [[agent, source, epoch, derived_ok], ...] for every imported agent of the scenario
 \* 4th field: the agent's derived Earth-fixed state belongs to the same epoch as the imported inertial state
@@ -52,9 +56,9 @@ TLoadObs == IsEvent("LoadObs") /\ UpdateFilters /\ ReachedMatch(reached, Rec.rea
 TSilentLoad == l <= Len(Tr) /\ Rec.ev = "LoadObs" /\ LoadObsSome /\ UNCHANGED <<tid, l>>
 TEndStep == IsEvent("EndStep") /\ EndStep
 \* end of the run: the importer database file is byte-identical to what it was before
-TEndRun == IsEvent("EndRun") /\ Rec.unchanged /\ UNCHANGED vars
+TEndRun == IsEvent("EndRun") /\ Rec.unchanged /\ Rec.schema_unchanged /\ UNCHANGED vars
 
-TraceNext == TBeginStep \/ TImportOk \/ TSkipImport \/ TImportMissing \/ TEngineLoad \/ TSilentLoad \/ TLoadObs \/ TEndStep \/ TEndRun
+TraceNext == TOpen \/ TBeginStep \/ TImportOk \/ TSkipImport \/ TImportMissing \/ TEngineLoad \/ TSilentLoad \/ TLoadObs \/ TEndStep \/ TEndRun
 TraceSpec == TraceInit /\ [][TraceNext]_tvars
 
 \* diagnosis of the NEXT record against the current state (meaningful where the trace is stuck); the strings are kept
@@ -64,6 +68,9 @@ TraceSpec == TraceInit /\ [][TraceNext]_tvars
 \*   ImportFaithful:not-this-epochs-record  an imported agent's state is not the database record of this epoch
 \*   ObsReachFilter:lost-cross-engine-obs   an observation whose sensor and target belong to different engines never arrived
 \*   ObsReachFilter:obs-lost / obs-more-than-once / obs-not-in-db
+\*   NoStaleState:importer-not-queried      agents are imported but the step went on without importEphemerides
+\*   RunContinues:duplicate-obs-row         the run died at an epoch for which an observation row is stored twice
+\*   ImporterReadOnly:tables-created        using the importer database created schema objects in it
 WhyImportOk ==
   IF pc # "registered" THEN "out-of-order"
   ELSE IF ~Complete
@@ -84,9 +91,13 @@ Why ==
   IF l > Len(Tr) THEN "end"
   ELSE CASE Rec.ev = "ImportOk" -> WhyImportOk
          [] Rec.ev = "ImportMissing" -> IF pc = "registered" /\ Complete THEN "raised-although-complete" ELSE "ok"
+         [] Rec.ev \in {"EngineLoad", "LoadObs"} /\ pc = "registered" ->
+              IF cfg.imported # {} THEN "NoStaleState:importer-not-queried" ELSE "out-of-order"
          [] Rec.ev = "LoadObs" -> WhyLoadObs
-         [] Rec.ev = "EndRun" -> IF ~Rec.unchanged THEN "ImporterReadOnly:file-modified" ELSE "ok"
-         [] Rec.ev = "Crash" -> "crash"
+         [] Rec.ev \in {"Open", "EndRun"} ->
+              IF ~Rec.schema_unchanged THEN (IF cfg.schema = "minimal" THEN "ImporterReadOnly:tables-created" ELSE "ImporterReadOnly:schema-modified")
+              ELSE IF ~Rec.unchanged THEN "ImporterReadOnly:file-modified" ELSE "ok"
+         [] Rec.ev = "Crash" -> IF pc = "imported" /\ \E o \in cfg.dup : o[1] = k THEN "RunContinues:duplicate-obs-row" ELSE "crash"
          [] OTHER -> "ok"
 Accept == PrintT(<<"AT", tid, l, Len(Tr) + 1, Why>>)
 =============================================================================
